@@ -48,6 +48,17 @@ CHECKS = {
         "compared with each other; returned dimensions must be amount/time.",
         "Trusts vlib/ratelaw.py, vlib/si.py and the spec->object builder vlib/build_model.py. Tolerance 1e-9 "
         "x sum of |terms| per entry. No chemostats (C03). Engine library is rebuilt from /repo's working tree."),
+    "C03": (
+        "Hypothesis model-based generation with chemostat maps; masked reference rate law; invariant over "
+        "every sample of engine trajectories; apply_reaction vs model array",
+        "Exploration. Generated systems with flags by species (scalar / per-environment) or by explicit "
+        "species x cell map: the kinetics functions and make_dxdtf must equal the masked reference law (and "
+        "the unmasked one with apply_chemostats=False); in Euler / tau-leap / Gillespie runs sampled every "
+        "iteration flagged entries must stay bit-identical to sample 0 and the first Euler step must equal "
+        "the masked law; apply_reaction is compared with a model array; a constructed family checks that a "
+        "flagged entry still feeds its product / neighbour.",
+        "Trusts vlib/ratelaw.py, vlib/si.py, vlib/build_model.py. Stochastic runs use integer states with "
+        "init_state_processing='none' and 5-60 iterations per case."),
 }
 
 NOT_BUILT = "check not built yet in this working session (planned; DESIGN.md section 4)"
